@@ -341,8 +341,11 @@ func Replay(bs []Behaviour, workers int) *ReplayResult {
 				// bind the reference codec to the specification
 				ref := item.RefBytes()
 				if !bytes.Equal(ref, want) {
+					// not a verdict about the library; for the record, say whether the library sides with the reference
+					lib := checkItem(item, want, &counter{runs: map[string]int{}, na: map[string]int{}, distinct: map[string]bool{}})
 					mu.Lock()
-					res.RefMismatch = append(res.RefMismatch, RefMismatch{Index: i, What: "reference encoder differs from Enc", Want: hex.EncodeToString(want), Got: hex.EncodeToString(ref)})
+					res.RefMismatch = append(res.RefMismatch, RefMismatch{Index: i, What: fmt.Sprintf("reference encoder differs from Enc (the library disagrees with the given bytes in %d shape checks)", len(lib)),
+						Want: hex.EncodeToString(want), Got: hex.EncodeToString(ref)})
 					mu.Unlock()
 					continue
 				}
